@@ -15,6 +15,7 @@
 -/
 import UnifexModel.Proto.Bulk
 import UnifexModel.Proto.FindIf
+import UnifexModel.Lemmas.BulkLoop
 import UnifexModel.Lemmas.FindIfTiles
 
 namespace Unifex.Props.C17
